@@ -8,7 +8,7 @@ COQ_TARGETS = ["Corr/Run_C18.vo", "Proofs/KeyspaceBase.vo", "Proofs/KeyspaceProo
                "Proofs/KeyspaceCoalesce.vo", "Proofs/KeyspaceNext.vo", "Proofs/KeyspaceGaps.vo",
                "Proofs/KeyspaceRegions.vo", "Proofs/KeyspaceAssign.vo", "Proofs/KeyspaceRemove.vo"]
 # N bounds the number of case indices (replay by index); campaign sizes derive from N/20 (see the harness).
-N = {"quick": 3000, "thorough": 30000}
+N = {"quick": 3000, "thorough": 20000}
 GO_TIMEOUT = {"quick": 600, "thorough": 3000}
 RULE = ("one case = one or two tries built on the real go-libdht trie by a script (Add/AddMany/Remove/PruneSubtrie) and dumped "
         "structurally, plus a batch of queries (AllKeys, FindPrefixOfKey, FindSubtrie, NextNonEmptyLeaf, PruneSubtrie, CoalesceTrie, "
